@@ -760,11 +760,28 @@ func readCase(src, text string, tb *tables) J {
 	}()
 	lines, _ := graphLines(g)
 	res["lines"] = hxs(lines)
+	// what triple.Parse says about each non-blank line on its own (for the prefix property, independent of the model)
+	var per []J
 	for _, l := range strings.Split(text, "\n") {
 		if len(l) < 400 {
 			tb.addText(strings.TrimSpace(l))
 		}
+		if len(l) > 70000 {
+			continue
+		}
+		l = strings.TrimSpace(strings.TrimSuffix(l, "\r"))
+		if l == "" {
+			continue
+		}
+		r, v := parseKind("triple", l)
+		e := J{"c": r["c"]}
+		if r["c"] == "ok" {
+			e["s"] = hx(v.str())
+			e["u"] = safeUUID(v)
+		}
+		per = append(per, e)
 	}
+	res["per_line"] = per
 	// the graph holds parsed values whose printed form the model must reproduce
 	ch := make(chan *triple.Triple, 64)
 	go g.Triples(context.Background(), storage.DefaultLookup, ch)
@@ -1128,6 +1145,48 @@ func modeHash() {
 	}
 }
 
+// stdin mode: replay of given inputs.  Lines: "parse <hex>", "read <hex>", "uuid <kind> <hex text>", "pair <kind> <hexA> <hexB>"
+func modeStdin() {
+	sc := bufio.NewScanner(os.Stdin)
+	sc.Buffer(make([]byte, 1<<20), 1<<26)
+	un := func(h string) string {
+		b, err := hex.DecodeString(h)
+		if err != nil {
+			panic(err)
+		}
+		return string(b)
+	}
+	for sc.Scan() {
+		f := strings.Fields(sc.Text())
+		if len(f) < 2 {
+			continue
+		}
+		switch f[0] {
+		case "parse":
+			seenParse = map[string]bool{}
+			seenValueCase = map[string]bool{}
+			emitParse("replay", un(f[1]))
+		case "read":
+			emit(readCase("replay", un(f[1]), newTables()))
+		case "uuid":
+			r, v := parseKind(f[1], un(f[2]))
+			if r["c"] != "ok" {
+				emit(J{"kind": "uuid", "src": "replay", "unparsable": true})
+				continue
+			}
+			emitUUID("replay", v)
+		case "pair":
+			ra, a := parseKind(f[1], un(f[2]))
+			rb, b := parseKind(f[1], un(f[3]))
+			if ra["c"] != "ok" || rb["c"] != "ok" {
+				emit(J{"kind": "pair", "src": "replay", "unparsable": true})
+				continue
+			}
+			emitPair("replay", a, b)
+		}
+	}
+}
+
 func main() {
 	mode := flag.String("mode", "parse", "parse|values|graph|reader|long|uuid|hash")
 	seed := flag.Int64("seed", 1, "PRNG seed")
@@ -1153,5 +1212,7 @@ func main() {
 		modeUUID(*n)
 	case "hash":
 		modeHash()
+	case "stdin":
+		modeStdin()
 	}
 }
